@@ -198,6 +198,37 @@ def py_listing(ops, q):
                      if x["path"] != WK and py_filter(q, x))
 
 
+def py_clean(x):
+    """mirror of LinkParse.lf_clean_res: the text of the link is unambiguous link-format"""
+    if b">" in x["path"]:
+        return False
+    for nm, v in x["attrs"]:
+        if any(c in nm for c in b";,="):
+            return False
+        if v is None or v == b"":
+            continue
+        if v[:1] == b'"':
+            if len(v) < 2 or v[-1:] != b'"' or b'"' in v[1:-1]:
+                return False
+        elif any(c in v for c in b";,"):
+            return False
+    return True
+
+
+def py_canon_dump(ops, q):
+    """what LinkParse.lf_parse must read out of the listing (format of the model's lfparse),
+    or None when a listed resource is not clean"""
+    out = []
+    for x in table_of_ops(ops):
+        if x["path"] == WK or not py_filter(q, x):
+            continue
+        if not py_clean(x):
+            return None
+        attrs = list(x["attrs"]) + ([(b"obs", None)] if x["obs"] else []) + ([(b"osc", None)] if x["osc"] else [])
+        out.append(tok(x["path"]) + "|" + ";".join(tok(nm) + ("" if v is None else "=" + tok(v)) for nm, v in attrs))
+    return " ".join(out) if out else "none"
+
+
 # ---------------------------------------------------------------- filters aimed at the table
 
 def gen_filter(r, ops):
